@@ -6,5 +6,23 @@ CLAIMED = {
   'note': 'Trusted: Lean kernel, axioms {propext, Classical.choice, Quot.sound} at most; the correspondence harness; CPython list (EList/EBag are Python lists: for them the specification functions pyInsert/pyPop/... are validated against CPython in the same pass). Element equality is structural in the model, ==/hash in Python.',
   'technique': 'Lean 4 proof (invariant by induction over operations + refinement to a list spec) + exhaustive small-scope differential correspondence',
  },
+ 'C01': {
+  'text': 'Lean theorems C01_step / C01_reachable / C01_release / C01_steal over the Store model, for an arbitrary well-formed metamodel value (all sixteen shapes at once): every public mutation, returned or raised, from any state satisfying the invariants re-establishes symmetry; after every finite history y in x.f <-> x in y.g; re-pointing and stealing release the previous partner. The model is tied to the code each run by a differential correspondence on generated histories (reference slots after every call + returned/raised) over enumerated opposite-pair shapes and random well-formed metamodels.',
+  'design_ref': 'DESIGN.md section 4 C01',
+  'note': 'Trusted: Lean kernel + at most {propext, Classical.choice, Quot.sound}; the correspondence harness and generators (a divergence on inputs never generated is not seen); the model is a net-effect model (unlinkRaw/detach/linkRaw), not a statement-by-statement mirror. Side conditions: MM.WF (EMF ConsistentUnique, SingleContainer, mutual opposites); list-like references are not offered a duplicate; no None into many-valued features.',
+  'technique': 'Lean 4 proof (inductive invariant over all operations, parametric in the metamodel) + differential correspondence model vs implementation + independent oracle',
+ },
+ 'C02': {
+  'text': 'Lean theorems C02_step / C02_reachable / C02_one_owner / C02_failed_keeps / C02_move / C02_rappend / C02_eResource_root: back-pointers name exactly the containment slot or root list holding an object, there is at most one such position, a new owner removes the object from the previous one, a raising call leaves the whole state unchanged, descendants report their root resource. Tied to the code by correspondence on the ownership view (eContainer, eContainmentFeature, _eresource, containment slots, Resource.contents) after every call of generated histories.',
+  'design_ref': 'DESIGN.md section 4 C02',
+  'note': 'As C01. C02_eResource_root is stated for container chains that end within the fuel (acyclic containment; cycle-creating calls are outside the quantifier and are never generated).',
+  'technique': 'Lean 4 proof (inductive invariant Own/ResOK/Card) + differential correspondence + independent oracle',
+ },
+ 'C03': {
+  'text': 'Lean theorems C03_typed / C03_reachable (every stored value conforms after every call of every history, given WF and the typing side conditions WFT), C03_reject (a non-conforming value through any value-carrying operation: BadValueError and the result state IS the input state), C03_accept (conforming values are never rejected as ill-typed). Correspondence: full state + the exception class BadValueError after every call, histories with about 12% non-conforming operands through set/eSet/append/insert/item assignment/extend/+=/whole-collection assignment.',
+  'design_ref': 'DESIGN.md section 4 C03',
+  'note': 'As C01. Modelled value kinds: None, bool, int, str, objects of a class hierarchy, other Python values; data types EInt/EString/EBoolean (bool conforms to EInt exactly as isinstance does). Enumerations, the other built-in data types, command execution and XMI/JSON load paths are exercised by other checks (C06, C08, C09, C17), not by this model.',
+  'technique': 'Lean 4 proof (invariant Typed + rejection leaves the state identical) + differential correspondence + independent oracle',
+ },
 }
 NOT_APPLICABLE = {}
